@@ -172,6 +172,7 @@ func init() {
 		partStepThrough(c, a, []string{"join", "leave", "delete"})
 		partStepPairs(c, a, [][2]string{{"leave", "join2"}, {"join", "leave2"}, {"leave", "leave2"}})
 		partLagging(c, a)
+		partRealBinaryIntegrity(c, a, false)
 		return a.finish(c)
 	}
 	registry["C04"] = func(c *check.Ctx) int {
@@ -237,6 +238,7 @@ func init() {
 			})
 		partStepThrough(c, a, []string{"action-vs-action", "action-vs-delete", "action-vs-leave", "delete", "leave", "join"})
 		partStepPairs(c, a, [][2]string{{"join", "join2"}})
+		partRealBinaryIntegrity(c, a, false)
 		return a.finish(c)
 	}
 }
